@@ -1,6 +1,10 @@
 // Correspondence driver for matrix multiplication (property C15): main program and dense operands.
 // Protocol and output format: see drv_matmul.h.  Fixed-size operands: drv_matmul_f*.cpp; special matrices: drv_matmul_s*.cpp.
 #include "drv_matmul.h"
+#ifdef MM_NO_SPY
+// built against a real BLAS (second opinion of the thorough tier): nothing is logged
+namespace verif { std::vector<BlasCall> blas_log; }
+#endif
 namespace mm {
 verif::SpyStack* g_stack = 0;
 
